@@ -732,6 +732,10 @@ pub fn partial_liquidation_reply(
             .push(execute_transfer(deps.storage, &config.insurance_fund, liquidation_fee).unwrap());
     }
 
+    // the liquidation updated the position in this block: its owner is then held to the
+    // one-action-per-block rule like any trader whose position changed in a liquidation block
+    position.block_number = env.block.height;
+
     store_position(deps.storage, &position)?;
     store_state(deps.storage, &state)?;
 
